@@ -208,6 +208,20 @@ def rule_struct(ctx):
             if dd and dd["name"] in ("into", "from") and n.get("k") == "Call" and "Clone" in str(c.ty(n.get("t"))):
                 pass
         dfn = de_fns.get((crate, path), {})
+        # `deserialize_with` / `with`: serde_derive nests a `__DeserializeWith` wrapper (with its own Deserialize impl that
+        # calls the custom function) inside the visitor of the type; the visitor body only names it as a type argument
+        short_ = path.split("::")[-1]
+        for g2 in c.fns:
+            p2 = g2["d"].get("path") or ""
+            if "__DeserializeWith" in p2 and re.search(r"\bfor %s\b" % re.escape(short_), p2):
+                callee_ = None
+                for y in walk(g2["body"]):
+                    if y.get("k") == "Call" and strip(y["f"]).get("k") == "Path":
+                        dd9 = c.dfn(strip(y["f"]).get("def"))
+                        if dd9 and dd9["krate"] == crate:
+                            callee_ = dd9["name"]
+                flags.append("`deserialize_with`/`with` adapter%s" % (" (%s)" % callee_ if callee_ else ""))
+                break
         missing_named = set()
         defaulted = set()
         for fname, g in dfn.items():
